@@ -633,6 +633,7 @@ func rulesC08(c *Ctx) {
 		c.Pin("newStream call sites", n, 2)
 	})
 
+	c.Import("R-C08-9", "the final response stays obtainable: the client's reconnect loop spends one attempt of its budget per failed connection and no more", "C09", "R-C09-5", func(k string) bool { return strings.HasPrefix(k, "connectSSE") })
 	c.Import("R-C08-7", "with the default (in-memory) event store a replay is the exact retained suffix after the client's cursor, or an error when part of it was purged — never a partial or aliased answer", "C20", "R-C20-3", nil)
 	c.Import("R-C08-8", "what is replayed was framed as one event per message: an event is an optional id line and one data line closed by a blank line", "C19", "R-C19-6", func(k string) bool { return strings.HasPrefix(k, "writeEvent") })
 
